@@ -12,7 +12,9 @@ statement, no labels / gotos, no static locals) is replaced by a copy of the hel
   * the helper's locals get fresh names and declaration ids per copy;
   * a trailing `return e;` becomes the expression statement `e;` (the caller ignored the value).
 
-Calls whose value is used are left alone.  The helpers themselves stay in the program.  This is a semantics-preserving
+A call whose value is used is expanded only in the forms `v = h(...)`, `v op= h(...)` and `T v = h(...)` with v a plain
+variable and h ending in its only `return e;`: the body is placed in front of the statement and the call replaced by e.
+Every other call is left alone.  The helpers themselves stay in the program.  This is a semantics-preserving
 source transformation; it is applied to a deep copy of the syntax tree, never to /repo."""
 import copy
 
@@ -158,9 +160,56 @@ class _Inliner:
         return {'id': 'inl%d' % tag, 'kind': 'CompoundStmt', 'inner': pre + body, '_line': call.get('_line'),
                 '_file': call.get('_file'), '_inlined_from': nm}
 
+    def _value_call(self, e):
+        """the CallExpr when expression e is nothing but a call (through parentheses / casts)"""
+        s = e
+        while isinstance(s, dict) and s.get('kind') in ('ParenExpr', 'CStyleCastExpr', 'ImplicitCastExpr') and s.get('inner'):
+            s = s['inner'][0]
+        return s if isinstance(s, dict) and s.get('kind') == 'CallExpr' else None
+
+    def expand_value(self, caller_name, holder, idx, stack):
+        """holder['inner'][idx] is `h(...)` whose value is used once, by holder (an assignment's right side or a variable's
+        initialiser): returns the statements to run before holder - the expanded body - after replacing the call by the
+        helper's returned expression; None when h is not expandable or returns nothing."""
+        call = self._value_call(holder['inner'][idx])
+        if call is None:
+            return None
+        c0 = strip(children(call)[0])
+        nm = (c0.get('referencedDecl') or {}).get('name') if c0.get('kind') == 'DeclRefExpr' else None
+        g = self.prog.funcs.get((self.unit.rel, nm)) if nm else None
+        if g is None or not g.body or not children(g.body) or children(g.body)[-1].get('kind') != 'ReturnStmt' \
+                or not children(children(g.body)[-1]):
+            return None
+        if self._stmt_call(children(children(g.body)[-1])[0]) is not None:
+            return None                 # `return other(...)`: the value would itself be expanded as a statement
+        blk = self.expand_call(caller_name, call, stack)
+        if blk is None:
+            return None
+        stmts = blk['inner']
+        value = stmts.pop()             # the trailing `return e;` was turned into the expression statement `e;`
+        holder['inner'][idx] = value
+        return stmts
+
     def expand_block(self, caller_name, stmts, stack):
         out = []
         for st in stmts:
+            pre = None
+            if isinstance(st, dict):
+                k = st.get('kind')
+                if k == 'DeclStmt' and len(children(st)) == 1 and children(st)[0].get('kind') == 'VarDecl' \
+                        and children(st)[0].get('init') and children(st)[0].get('inner'):
+                    vd = children(st)[0]
+                    pre = self.expand_value(caller_name, vd, len(vd['inner']) - 1, stack)
+                elif (k == 'BinaryOperator' and st.get('opcode') == '=') or k == 'CompoundAssignOperator':
+                    if len(st.get('inner') or []) == 2 and self._value_call(st['inner'][0]) is None:
+                        # the left side is evaluated after the helper ran: only a plain variable is safe to move across it
+                        l = strip(st['inner'][0])
+                        if l.get('kind') == 'DeclRefExpr':
+                            pre = self.expand_value(caller_name, st, 1, stack)
+            if pre is not None:
+                out.extend(pre)
+                out.append(st)
+                continue
             out.append(self.expand_stmt(caller_name, st, stack))
         return out
 
